@@ -211,6 +211,16 @@ impl Property for C08 {
         }
         v
     }
+    fn extra_stage(
+        &self,
+        ctx: &mut Ctx,
+        stats: &mut crate::runner::Stats,
+    ) -> Result<Option<crate::runner::Violation>, String> {
+        if ctx.tier != Tier::Thorough {
+            return Ok(None);
+        }
+        crate::fuzzstage::fuzz_stage("C08", ctx, stats, 180, true)
+    }
     fn required_labels(&self) -> Vec<&'static str> {
         vec!["adversarial=directive-jsx-value", "adversarial=deep-nesting", "adversarial=other-generators"]
     }
